@@ -64,7 +64,7 @@ EMPTY = z3.StringVal("")
 SPEC_FUNCS = (
     "joined old count n_count first_start last_end chain_ok span_ok joined_values "
     "implies is_none appended length seq_of at unchanged strip lstrip rstrip isspace "
-    "startswith endswith contains substr ite same present is_ctor or_empty field refs_closed writes_only has_op declares_param defines chars_subset differs_only_at is_suffix touched_exactly_one_marked isdigit isalpha isidentifier only_chars pure"
+    "startswith endswith contains substr ite same present is_ctor or_empty field refs_closed writes_only has_op declares_param defines chars_subset differs_only_at is_suffix touched_exactly_one_marked isdigit isalpha isidentifier only_chars pure is_str"
 ).split()
 
 
@@ -964,7 +964,18 @@ class Engine(object):
     def slot_path(self, e):
         """`xs[i]` (two plain names) when the block contract declares an access path through it, else None"""
         c = self.contract
-        if c is None or not getattr(c, "paths", None) or getattr(c, "block", None) is None:
+        if c is None or not getattr(c, "paths", None):
+            return None
+        if (isinstance(e, ast.Subscript) and isinstance(e.slice, ast.Constant) and isinstance(e.slice.value, int) and not isinstance(e.slice.value, bool)
+                and isinstance(e.ctx, ast.Load)):
+            # `p.a.b[0]`: a constant element of a dotted access path rooted at a name, when the contract declares exactly it
+            base = e.value
+            while isinstance(base, ast.Attribute):
+                base = base.value
+            key = ast.unparse(e)
+            if isinstance(base, ast.Name) and any(p_ == key or p_.startswith(key + ".") for p_ in c.paths):
+                return key
+        if getattr(c, "block", None) is None:
             return None
         if not (isinstance(e, ast.Subscript) and isinstance(e.value, ast.Name) and isinstance(e.slice, ast.Name)):
             return None
@@ -1455,6 +1466,10 @@ class Engine(object):
                 return [(st, VBool(z3.PrefixOf(args[0].z, s)))]
             if m == "endswith" and len(args) == 1 and isinstance(args[0], VStr):
                 return [(st, VBool(z3.SuffixOf(args[0].z, s)))]
+            if m in ("startswith", "endswith") and len(args) == 1 and isinstance(args[0], VTuple) and args[0].items and all(isinstance(x, VStr) for x in args[0].items):
+                # s.startswith((a, b, ...)): any of them
+                op_ = z3.PrefixOf if m == "startswith" else z3.SuffixOf
+                return [(st, VBool(z3.Or(*[op_(x.z, s) for x in args[0].items])))]
             if m == "isspace" and not args:
                 st.assume(z3.Implies(py_isspace(s), s != EMPTY))
                 self.assumptions.add("stdlib spec: ''.isspace() is False")
@@ -1774,6 +1789,11 @@ class Engine(object):
             if isinstance(a, VStr):
                 return VStr(z3.If(c, a.z, b.z))
             return VBool(z3.If(c, self.truthy(a, st), self.truthy(b, st)))
+        if name == "is_str":
+            # is_str(v): on this path the value is a Python str.  Decided by the kind of the symbolic value: a string term is
+            # one, None / numbers / tuples / concrete Python objects (typing.Any, classes, modules) are not; an uninterpreted
+            # value is not known to be one (the claim fails: the contract must type it, e.g. through `paths` / `pure_results`)
+            return VBool(z3.BoolVal(isinstance(args[0], VStr)))
         if name == "is_none":
             c = self.equal(args[0], VNone(), st)
             return VBool(c if c is not None else z3.BoolVal(False))
@@ -2643,6 +2663,9 @@ class Engine(object):
                 st.bind(p, VOpaque(note=p))
             else:
                 st.bind(p, self.fresh_value(kind, p, st))
+            v_ = st.lookup(p) if hasattr(st, "lookup") else None
+            if isinstance(v_, VOpaque) and any(re.split(r"[.\[]", q_)[0] == p for q_ in contract.paths):
+                v_.path = p  # declared access paths (`p.a.b`, `p.xs[0]`) of an uninterpreted parameter
         # closure bindings of a nested function under contract
         for n_, kind in contract.closure.items():
             st.bind(n_, self.fresh_value(kind, n_, st))
